@@ -19,13 +19,14 @@ const (
 	OpGet
 	OpMarkDirty
 	OpMarkClean
+	OpRestore // store the resident node itself again (what a flush does for every page it writes)
 	NumOps
 )
 
 type Step struct{ Op, Key int }
 
 func (s Step) String() string {
-	return fmt.Sprintf("%s(%d)", [...]string{"setClean", "setDirty", "get", "markDirty", "markClean"}[s.Op], s.Key)
+	return fmt.Sprintf("%s(%d)", [...]string{"setClean", "setDirty", "get", "markDirty", "markClean", "restore"}[s.Op], s.Key)
 }
 
 // Count is the number of sequences of the given depth.
@@ -70,6 +71,8 @@ func Random(seed uint64, steps, nkeys, dirtyPct int) []Step {
 			if r.Intn(100) < dirtyPct {
 				op = OpMarkDirty
 			}
+		case x < 93:
+			op = OpRestore
 		default:
 			op = OpMarkClean
 		}
@@ -82,6 +85,7 @@ type Cache interface {
 	Set(key uint64, id uint64, dirty bool) bool
 	Get(key uint64) (id uint64, dirty bool, ok bool)
 	SetDirty(key uint64, dirty bool) bool
+	Restore(key uint64) bool
 	State() (keys, ids []uint64, dirty []bool, mapLen, listLen int)
 }
 
@@ -99,6 +103,8 @@ func Run(c Cache, steps []Step) []string {
 			fmt.Fprintf(&sb, "ret=%d,%v,%v", id, d, ok)
 		case OpMarkDirty, OpMarkClean:
 			fmt.Fprintf(&sb, "ret=%v", c.SetDirty(key, s.Op == OpMarkDirty))
+		case OpRestore:
+			fmt.Fprintf(&sb, "ret=%v", c.Restore(key))
 		}
 		keys, ids, dirty, ml, ll := c.State()
 		fmt.Fprintf(&sb, " map=%d list=%d [", ml, ll)
